@@ -5,6 +5,7 @@ import TsRsVerif.Lemmas.HistoryWorld
 import TsRsVerif.Lemmas.HistoryMulti
 import TsRsVerif.Lemmas.HistoryTo
 import TsRsVerif.Lemmas.HistoryToMulti
+import TsRsVerif.Lemmas.HistoryRepeat
 /-!
 # C06 — export results depend only on what was exported, not how or in what order
 
@@ -196,6 +197,38 @@ example : (∀ s ∈ exTSlots, ∀ n ∈ s.ns ++ [s.name], Path.CompName n) ∧ 
 #guard (runOpsTo exTSlots { fs := exFs0, reg := [] } exTOps).2
 #guard ((runOpsTo exTSlots { fs := exFs0, reg := [] } exTOps).1.fs.lookup ["w".toList, "out".toList, "deep".toList, "shared.ts".toList])
   == ((runOpsTo exTSlots { fs := exFs0, reg := [] } exTOps.reverse).1.fs.lookup ["w".toList, "out".toList, "deep".toList, "shared.ts".toList])
+
+/-- **exporting a type again changes nothing — which entry point exported what does not matter**: in a history over several files some
+steps export something new (`news`, in order), the others repeat an earlier export of the same type into the same file (what happens
+when a type is first exported alone and later reached by `export_all`, or when two `export_all`s share a dependency), through any
+spelling of the path. Every step returns `Ok`, and the history ends in the invariant of the history WITHOUT the repeats: each file
+holds the canonical text of the types exported into it, once each; nothing is lost, nothing is written twice
+(`Lemmas/HistoryRepeat.lean`: a repeated step finds the type in the registry and leaves the file alone). -/
+theorem C06_repeated_exports_are_noops (slots : List TSlot) (w : World) (ops : List TOp) (news : List Op)
+    (hs : TSlotsOK w.fs slots) (hd : Dedup [] ops news)
+    (hr : ∀ op ∈ ops, op.1.1 < slots.length)
+    (hsp : ∀ op ∈ ops, ∀ s, slots[op.1.1]? = some s → Path.absolute (cwdStr w.fs) op.2 = .ok s.path)
+    (hg : ∀ op ∈ news, GenOK op.2)
+    (hnm : ∀ i, ((gensAt i news).map (·.name)).Nodup) (hid : ∀ i, ((gensAt i news).map (·.ident)).Nodup)
+    (hp : w.poisoned = false) (hreg : ∀ s ∈ slots, regGet w.reg (regKey s.path) = none) :
+    ∃ w', runOpsTo slots w ops = (w', true) ∧ TInv w.fs slots news w' := by
+  have := tmulti_repeats w.fs slots hs ops [] news w hd (tinv_init slots w hs hp hreg) hr hsp
+    (by
+      intro x hx
+      rcases hx with ⟨o, ho, rfl⟩ | ⟨o, ho, _⟩
+      · exact hg o ho
+      · cases ho)
+    (by simpa using hnm) (by simpa using hid)
+  simpa using this
+
+/-! non-vacuity: `Beta` into `shared.ts`, `Other`, `Beta` AGAIN through another spelling, then `Alpha` into `shared.ts` -/
+def exRepOps : List TOp := [((0, exB), "out/deep/shared.ts".toList), ((1, exO), "/w/out/./Other.ts".toList),
+  ((0, exB), "./out/x/../deep/shared.ts".toList), ((0, exA), "out/deep/shared.ts".toList)]
+example : Dedup [] exRepOps [(0, exB), (1, exO), (0, exA)] :=
+  Dedup.new (Dedup.new (Dedup.rep (by simp [gensAt]) (Dedup.new Dedup.nil)))
+#guard (runOpsTo exTSlots { fs := exFs0, reg := [] } exRepOps).2
+#guard ((runOpsTo exTSlots { fs := exFs0, reg := [] } exRepOps).1.fs.lookup ["w".toList, "out".toList, "deep".toList, "shared.ts".toList])
+  == some (.file (fileText (canonSt [exB, exA])))
 
 /-- before the fix `export()` keyed the registry by the un-normalised path: as `PathBuf`s the two
 spellings of one file are different keys -/
